@@ -800,7 +800,7 @@ def hex_deck(seed):
 
 # ------------------------------------------------------------------ directed decks
 
-N_DIRECTED = 8
+N_DIRECTED = 9
 
 
 def directed_deck(k):
@@ -842,6 +842,15 @@ def directed_deck(k):
         d.add_cell(Cell(50, 2, '-1.0', ('s', -4), imp=0, universe=5))
         d.add_cell(Cell(51, 4, '0.05', ('s', 4), imp=2, universe=5))
         d.materials.update({1: MATS[1], 2: MATS[2], 4: MATS[4]})
+        return d
+    if k == 8:      # the zero-importance outside world has the highest cell number, with a gap that the numbers
+        # generated for auxiliary volumes (unions, complements) fall into
+        d.add_surf(Surf(4, 'py', [0.0]))
+        d.add_surf(Surf(5, 'pz', [0.0]))
+        d.add_cell(Cell(1, 1, '-2.70', ('*', (':', (':', ('s', -1), ('s', -3)), ('s', -4)), ('s', -2))))
+        d.add_cell(Cell(2, 2, '-1.0', ('*', ('*', ('~', (':', (':', ('s', -1), ('s', -3)), ('s', -4))), ('s', -2)), (':', ('s', 5), ('s', -5)))))
+        d.add_cell(Cell(9, 0, None, ('s', 2), imp=0))
+        d.materials.update({1: MATS[1], 2: MATS[2]})
         return d
     if k == 7:      # a flagged one-sheet cone (cone + apex plane in TRIPOLI-4) bounding converted cells
         d.add_surf(Surf(5, 'kz', [0.5, 1.0, 1.0], None, '*'))
